@@ -91,6 +91,7 @@ def finish(k, scn, viol, extra=None):
         "stats": stats_of(k),
         "probes": dict(k.probes),
         "pairs": sorted(k.sw_pairs),
+        "locs": dict(k.sw_locs),
     }
     if extra:
         res.update(extra)
